@@ -130,6 +130,18 @@ CHECKS = {
              "the sampling search are known findings.",
         technique="TLA+ spec Curve.tla (+Arc.tla): TLC-enumerated exact instances; instance evaluation under similarity conjugation",
         ref="DESIGN.md section 4 C16"),
+    "C17": dict(
+        text="Links.tla enumerates exact lattice instances in integer orthogonal frames about shifted origins (feet on a "
+             "line/plane, radius and height about an axis, leaders moved by quarter turns with radial/axial displacement, "
+             "translations, mirror images) with exact expected follower positions and TLC checks the quarter-turn and "
+             "mirror identities; every sampled instance is mapped by a random similarity and Line/Plane/Radial/Curve/Free/"
+             "ParametricSurface clamps and Translation/Rotation/Symmetry links are compared with the exact values, "
+             "including that update() leaves the leader as assigned.",
+        note="Initial clamp positions come from scipy.minimize(tol=1e-7): compared to 1e-3 of the feature size; on-manifold "
+             "checks to 1e-5. Rotation angles are multiples of 90 degrees in the lattice frame (arbitrary in world "
+             "orientation through the similarity).",
+        technique="TLA+ spec Links.tla/Lattice.tla: TLC-enumerated exact instances; instance evaluation under similarity conjugation",
+        ref="DESIGN.md section 4 C17"),
 }
 
 def main():
